@@ -179,13 +179,13 @@ Lemma relabel_indep : forall nd, nlevel nd = i -> depends s (S i) nd = false ->
   relabel s i nd = set_level nd (S i).
 Proof.
   intros nd Hl Hd. unfold relabel. rewrite Hl, Hd, Nat.eqb_refl.
-  destruct (Nat.eqb_spec i (S i)); [lia | reflexivity].
+  destruct (Nat.eqb_spec i (S i)) as [Q|]; [exfalso; exact (n_Sn i Q) | reflexivity].
 Qed.
 
 Lemma relabel_dep : forall nd, isdep nd -> relabel s i nd = nd.
 Proof.
   intros nd [Hl Hd]. unfold relabel. rewrite Hl, Hd, Nat.eqb_refl.
-  destruct (Nat.eqb_spec i (S i)); [lia | reflexivity].
+  destruct (Nat.eqb_spec i (S i)) as [Q|]; [exfalso; exact (n_Sn i Q) | reflexivity].
 Qed.
 
 Lemma relabel_other : forall nd, nlevel nd <> i -> nlevel nd <> S i -> relabel s i nd = nd.
